@@ -48,6 +48,7 @@ GL_ORDER = 8                 # per piece of length dt/2 (check B)
 GUARD = -math.log(np.finfo(float).eps)      # the library switches integrand where w / T > 36.04
 
 T_ALPHABET = ["0", "0.02wc", "0.14wc", "1", "50"]      # simplest first
+XCELLS = [("xsq0", "square", 0.0, None), ("xsq0.5", "square", 0.5, None), ("xrect0.5+1.5", "rectangle", 0.5, 2.0)]
 CELLS = ([("tri", "upper-triangle", 0.0, None)] + [(f"sq{k}", "square", float(k), None) for k in (1, 2, 3)]
          + [(f"rect{k}+{r}", "rectangle", float(k), float(k) + r) for k in (1, 3) for r in (0.5, 1.0, 2.5)])
 SD_CLASSES = ("PowerLawSD", "CustomSD", "CustomSD-resonance")
@@ -194,6 +195,22 @@ def _eval_case(ob, dt, do_selfint):
             if closed:
                 cf = O.closed_cell(ob["alpha"], ob["zeta"], ob["wc"], shape, dt, t1, t2)
                 recs.append(("closed", name, abs(v - cf), tol, v, complex(cf)))
+        # ---- cells that touch or straddle the diagonal (time_1 < delta): only the spectral oracle applies
+        for name, shape, k, k2 in XCELLS:
+            t1 = k * dt
+            t2 = None if k2 is None else k2 * dt
+            v = libcell(shape, t1, t2)
+            if shape == "square":
+                kern, corners = O.k_rect(t1, t1 + dt, dt), [t1 + dt, t1, t1, t1 - dt]
+            else:
+                kern, corners = O.k_rect(t1, t2, dt), [t2, t1, t2 - dt, t1 - dt]
+            corners = [abs(c) for c in corners]
+            ref = orc.real(kern, max(corners))
+            s_ = sum(eta_abs(t) for t in corners if t > 0)
+            nt_ = sum(1 for t in corners if t > 0)
+            tol_ = tolf(s_, nt_)
+            recs.append(("spectral", name, abs(v - ref), tol_, v, ref))
+            stats.append(("spectral", name, abs(v - ref), s_, nt_))
         # ---- triangle placed at time_1 = dt: documented integral  int_{t1}^{t1+D} int_0^{t'-t1} C(t'-t'') dt'' dt'
         v = libcell("upper-triangle", dt, None)
         ref = orc.real(O.k_tri(dt, dt), 2 * dt)
